@@ -46,6 +46,9 @@ type c14Case struct {
 	Named          bool      `json:"named,omitempty"`
 	OptOrder       []int     `json:"opt_order,omitempty"` // permutation applied to the option list (options must commute)
 	Calls          []c14Call `json:"calls"`
+	// Times: the whole call list is gone through that many times on the same interceptor (long-lived interceptors:
+	// hundreds of calls, long runs of refusals or of grants without anything else in between)
+	Times int `json:"times,omitempty"`
 }
 
 func genC14(t *rapid.T) c14Case {
@@ -78,6 +81,14 @@ func genC14(t *rapid.T) c14Case {
 		}
 	})
 	c.Calls = rapid.SliceOfN(call, 1, 20).Draw(t, "calls")
+	c.Times = rapid.SampledFrom([]int{1, 1, 1, 1, 1, 1, 2, 10, 150, 400}).Draw(t, "times")
+	if c.Times >= 150 && rapid.Bool().Draw(t, "storm") {
+		// a storm: every call is refused (or every call granted); what varies from call to call is the rest
+		g := rapid.Bool().Draw(t, "stormGrant")
+		for i := range c.Calls {
+			c.Calls[i].Grant = g
+		}
+	}
 	c.OptOrder = rapid.Permutation(seq(8)).Draw(t, "optOrder")
 	return c
 }
@@ -440,39 +451,45 @@ func runC14(_ *testing.T, c c14Case) (out kit.Outcome) {
 		}
 		return nil
 	}
-	for i := 0; i < len(c.Calls); {
-		j := i + 1
-		for c.Kind == "stream" && j < len(c.Calls) && c.Calls[j].Same {
-			j++
-		}
-		if j == i+1 {
-			if o := check(i); o != nil {
-				return *o
+	times := c.Times
+	if times < 1 {
+		times = 1
+	}
+	for round := 0; round < times; round++ {
+		for i := 0; i < len(c.Calls); {
+			j := i + 1
+			for c.Kind == "stream" && j < len(c.Calls) && c.Calls[j].Same {
+				j++
+			}
+			if j == i+1 {
+				if o := check(i); o != nil {
+					return *o
+				}
+				i = j
+				continue
+			}
+			// operations i..j-1 run on one wrapped stream, inside one handler invocation
+			sawSameStream = true
+			var viol *kit.Outcome
+			var last error
+			liveInner = &c14Stream{log: log}
+			herr := runStream(liveInner, func(srv interface{}, ss grpc.ServerStream) error {
+				liveSS = ss
+				defer func() { liveSS = nil }()
+				for k := i; k < j && viol == nil; k++ {
+					viol = check(k)
+				}
+				last = errors.New("handler result")
+				return last
+			})
+			if viol != nil {
+				return *viol
+			}
+			if herr != last {
+				return kit.Viol("stream:result", "interceptor changed the handler's result")
 			}
 			i = j
-			continue
 		}
-		// operations i..j-1 run on one wrapped stream, inside one handler invocation
-		sawSameStream = true
-		var viol *kit.Outcome
-		var last error
-		liveInner = &c14Stream{log: log}
-		herr := runStream(liveInner, func(srv interface{}, ss grpc.ServerStream) error {
-			liveSS = ss
-			defer func() { liveSS = nil }()
-			for k := i; k < j && viol == nil; k++ {
-				viol = check(k)
-			}
-			last = errors.New("handler result")
-			return last
-		})
-		if viol != nil {
-			return *viol
-		}
-		if herr != last {
-			return kit.Viol("stream:result", "interceptor changed the handler's result")
-		}
-		i = j
 	}
 	if sawSameStream {
 		out.Labels = append(out.Labels, "several-ops-on-one-stream")
